@@ -15,9 +15,10 @@ import (
 
 // successSkeletons: skeleton of result #0 on every path of fn whose error result is nil.
 type skelRow struct {
-	P    *Path
-	Skel []Seg
-	Str  string
+	P     *Path // the path in the function itself (its return gives the position)
+	Atoms []Atom
+	Skel  []Seg
+	Str   string
 }
 
 func (c *Ctx) successSkeletons(fn *ssa.Function) ([]skelRow, string) {
@@ -31,13 +32,71 @@ func (c *Ctx) successSkeletons(fn *ssa.Function) ([]skelRow, string) {
 		if p.Ret == nil || len(p.Ret.Results) != n {
 			continue
 		}
+		// a forwarded (value, error) pair of a helper call: splice the helper's success paths in
+		if call, args := c.forwardedHelper(fn, p); call != nil {
+			sub, err := c.successSkeletons(call.Call.StaticCallee())
+			if err != "" {
+				return nil, err
+			}
+			for _, q := range sub {
+				row := skelRow{P: p}
+				row.Atoms = append(row.Atoms, p.Atoms...)
+				for _, a := range q.Atoms {
+					b := a
+					b.Subj, b.Val = substParams(a.Subj, args), substParams(a.Val, args)
+					row.Atoms = append(row.Atoms, b)
+				}
+				for _, sg := range q.Skel {
+					if !sg.isLit() {
+						sg.Hole = substParams(sg.Hole, args)
+					}
+					row.Skel = append(row.Skel, sg)
+				}
+				row.Str = skelString(row.Skel)
+				out = append(out, row)
+			}
+			continue
+		}
 		if !isNilConst(c.resolve(p.Ret.Results[n-1], p.Env)) {
 			continue
 		}
 		sk := c.skeleton(p.Ret.Results[0], p.Env)
-		out = append(out, skelRow{p, sk, skelString(sk)})
+		out = append(out, skelRow{P: p, Atoms: p.Atoms, Skel: sk, Str: skelString(sk)})
 	}
 	return out, ""
+}
+
+// forwardedHelper: the path returns result #0 and the error of one call of a non-recursive module
+// helper (return h(x) / s, err = h(x); return s, …, err). Returns the call and its argument keys.
+func (c *Ctx) forwardedHelper(fn *ssa.Function, p *Path) (*ssa.Call, []string) {
+	n := len(p.Ret.Results)
+	var call *ssa.Call
+	switch v := c.resolve(p.Ret.Results[0], p.Env).(type) {
+	case *ssa.Extract:
+		if v.Index == 0 {
+			call, _ = v.Tuple.(*ssa.Call)
+		}
+	}
+	if call == nil {
+		return nil, nil
+	}
+	ev, ok := c.resolve(p.Ret.Results[n-1], p.Env).(*ssa.Extract)
+	if !ok || ev.Tuple != ssa.Value(call) {
+		return nil, nil
+	}
+	h := call.Call.StaticCallee()
+	if h == nil || !inModule(h) || h.Blocks == nil || h == fn || h.Signature.Recv() != nil {
+		return nil, nil // methods of the driver are the recursive renderers/serialisers themselves
+	}
+	hr := h.Signature.Results()
+	if hr.Len() < 2 || !isErrorType(hr.At(hr.Len()-1).Type()) || ev.Index != hr.Len()-1 || !isStringType(hr.At(0).Type()) {
+		return nil, nil
+	}
+	var args []string
+	for _, a := range call.Call.Args {
+		args = append(args, c.key(a, p.Env))
+	}
+	return call, args
 }
 
 // substitute closure bindings: {^op:%s} with the bound operator's name from toString
@@ -94,7 +153,7 @@ var opmapOracle = map[string][]string{
 	"expr.Wild":      {"{$0}"},
 	"expr.Regexp":    {"{$0}"},
 	"expr.Like": {"{$0} ~ {$1}",
-		`{$0} SIMILAR TO {strings.ReplaceAll(strings.ReplaceAll($1,"*","%"),"?","_")}`},
+		`{$0} SIMILAR TO {rewrite[*→%,?→_]($1)}`},
 }
 
 // SQL-OPMAP (C03): operator → SQL mapping table agreement.
@@ -149,7 +208,7 @@ func ruleSQLOPMAP(c *Ctx, r *Report) {
 		for _, row := range rows {
 			if strings.Contains(row.Str, " ~ ") {
 				slash := 0
-				for _, a := range row.P.Atoms {
+				for _, a := range row.Atoms {
 					if a.Kind == "cmp" && a.Op == "==" && a.Val == "47" {
 						slash++
 					}
@@ -235,6 +294,14 @@ func ruleSQLVOCAB(c *Ctx, r *Report) {
 						if s, ok := constStringVal(x.Call.Args[1]); ok {
 							lits[s] = c.instrPos(in)
 						}
+					case "(*strings.Replacer).Replace":
+						if rp := c.replacerPairs(x.Call.Args[0]); rp != nil {
+							for _, pr := range rp {
+								lits[pr[1]] = c.instrPos(in)
+							}
+						} else {
+							lits["<replacer with non-constant pairs>"] = c.instrPos(in)
+						}
 					}
 				case *ssa.BinOp:
 					if isStringType(x.Type()) {
@@ -317,7 +384,7 @@ func ruleSQLLEAF(c *Ctx, r *Report) {
 		okU, okN := true, true
 		for _, row := range rows {
 			u, n := false, false
-			for _, a := range row.P.Atoms {
+			for _, a := range row.Atoms {
 				if a.Kind == "call" && a.Subj == "unicode/utf8.ValidString" && a.Val == "$0" && a.Pos {
 					u = true
 				}
@@ -377,13 +444,13 @@ func ruleSQLTAINT(c *Ctx, r *Report) {
 		for _, row := range rows {
 			// which dynamic type case is this path in
 			typ := ""
-			for _, a := range row.P.Atoms {
+			for _, a := range row.Atoms {
 				if a.Kind == "type" && a.Pos && a.Subj == "$1" {
 					typ = a.Val
 				}
 			}
 			if typ == "" {
-				if hasAtom(row.P.Atoms, "$1==nil") {
+				if hasAtom(row.Atoms, "$1==nil") {
 					continue
 				}
 				typ = "default"
@@ -417,7 +484,7 @@ func ruleSQLTAINT(c *Ctx, r *Report) {
 					continue
 				}
 				empty, quote := false, false
-				for _, a := range row.P.Atoms {
+				for _, a := range row.Atoms {
 					if a.Kind == "len" && a.Subj == v && (a.Op == "!=" && a.N == 0 || a.Op == ">" && a.N == 0 || a.Op == ">=" && a.N == 1) {
 						empty = true
 					}
@@ -553,13 +620,13 @@ func (c *Ctx) serialiserRejectsNonFinite() bool {
 	found := false
 	for _, row := range rows {
 		isFloat := false
-		for _, a := range row.P.Atoms {
+		for _, a := range row.Atoms {
 			if a.Kind == "type" && a.Pos && a.Subj == "$1" && a.Val == "float64" {
 				isFloat = true
 			}
 		}
 		if isFloat {
-			if !c.hasFiniteNaN(row.P.Atoms) {
+			if !c.hasFiniteNaN(row.Atoms) {
 				return false
 			}
 			found = true
@@ -611,7 +678,7 @@ func ruleSQLIDLEN(c *Ctx, r *Report) {
 		rows, _ := c.successSkeletons(mode.fn)
 		for _, row := range rows {
 			isCol := false
-			for _, a := range row.P.Atoms {
+			for _, a := range row.Atoms {
 				if a.Kind == "type" && a.Pos && a.Subj == "$1" && a.Val == "expr.Column" {
 					isCol = true
 				}
@@ -619,7 +686,7 @@ func ruleSQLIDLEN(c *Ctx, r *Report) {
 			if !isCol {
 				continue
 			}
-			_, hi := lenRange(row.P.Atoms, "$1.(expr.Column)")
+			_, hi := lenRange(row.Atoms, "$1.(expr.Column)")
 			key := mode.name + "|column-length"
 			if hi <= 63 {
 				r.ok(rule, key, c.instrPos(row.P.Ret), fmt.Sprintf("len ≤ %d", hi))
@@ -679,6 +746,7 @@ func (c *Ctx) simpleOps(fn *ssa.Function) (ops []string, other []string, err str
 	}
 	set := map[string]bool{}
 	oset := map[string]bool{}
+	arg := fmt.Sprintf("$%d", len(fn.Params)-1)
 	for _, p := range paths {
 		if p.Ret == nil {
 			continue
@@ -694,17 +762,17 @@ func (c *Ctx) simpleOps(fn *ssa.Function) (ops []string, other []string, err str
 		}
 		typ := ""
 		for _, a := range atoms {
-			if a.Kind == "type" && a.Pos && a.Subj == "$1" {
+			if a.Kind == "type" && a.Pos && a.Subj == arg {
 				typ = a.Val
 			}
 		}
 		switch typ {
 		case "*expr.Expression":
-			for o := range c.possibleOps(atoms, "$1.(*expr.Expression).Op") {
+			for o := range c.possibleOps(atoms, arg+".(*expr.Expression).Op") {
 				set[o] = true
 			}
 		case "":
-			if hasAtom(atoms, "$1==nil") {
+			if hasAtom(atoms, arg+"==nil") {
 				oset["nil"] = true
 			} else {
 				oset["?"] = true
@@ -864,7 +932,7 @@ func (c *Ctx) rangeTableOf(fn *ssa.Function) *rangeTable {
 	// discover rawMin / rawMax keys: subjects compared with a constant containing '*' or "?"
 	minK, maxK := "", ""
 	for _, row := range rows {
-		for _, a := range row.P.Atoms {
+		for _, a := range row.Atoms {
 			if a.Kind == "cmp" && (a.Op == "==" || a.Op == "!=") && strings.HasPrefix(a.Val, `"`) && (strings.Contains(a.Val, "*") || a.Val == `"?"`) {
 				if strings.Contains(a.Val, "*") {
 					rt.Markers[a.Val] = c.instrPos(row.P.Ret)
@@ -893,15 +961,15 @@ func (c *Ctx) rangeTableOf(fn *ssa.Function) *rangeTable {
 	helperRe := regexp.MustCompile(`\{driver\.[A-Za-z0-9_]+\(MIN,MAX\)#([01])(:[^}]*)?\}`)
 	for _, row := range rows {
 		rr := rangeRow{P: row.P, Excl: 0, MinOpen: -1, MaxOpen: -1, Stage: "string", Raw: row.Str}
-		open, closeP := false, false
+		open, closeP := -1, -1 // tri-state: -1 unknown, 0 no, 1 yes
 		intErr, floatErr := 0, 0 // 1 = nil (succeeded), 2 = non-nil
-		for _, a := range row.P.Atoms {
+		for _, a := range row.Atoms {
 			subj := norm(a.Subj)
 			switch {
 			case a.Kind == "cmp" && a.Subj == "$1[0]" && a.Val == "40":
-				open = a.Op == "=="
+				open = b2i(a.Op == "==")
 			case a.Kind == "cmp" && a.Subj == "$1[(len($1) - 1)]" && a.Val == "41":
-				closeP = a.Op == "=="
+				closeP = b2i(a.Op == "==")
 			case a.Kind == "cmp" && subj == "MIN" && strings.Contains(a.Val, "*"):
 				rr.MinOpen = b2i(a.Op == "==")
 			case a.Kind == "cmp" && subj == "MAX" && strings.Contains(a.Val, "*"):
@@ -937,7 +1005,7 @@ func (c *Ctx) rangeTableOf(fn *ssa.Function) *rangeTable {
 		if strings.HasPrefix(rr.Stage, "param") {
 			// numeric vs non-numeric parameter kind
 			numeric := false
-			for _, a := range row.P.Atoms {
+			for _, a := range row.Atoms {
 				if a.Kind == "type" && a.Pos && strings.HasPrefix(a.Subj, "$2[0]") && (a.Val == "int" || a.Val == "float64" || a.Val == "float32") {
 					numeric = true
 				}
@@ -948,7 +1016,14 @@ func (c *Ctx) rangeTableOf(fn *ssa.Function) *rangeTable {
 				rr.Stage = "param-other"
 			}
 		}
-		rr.Excl = b2i(open && closeP)
+		switch {
+		case open == 0 || closeP == 0:
+			rr.Excl = 0
+		case open == 1 && closeP == 1:
+			rr.Excl = 1
+		default:
+			rr.Excl = -1 // the path does not determine the bracket kind: expanded to both
+		}
 		s := norm(row.Str)
 		s = strings.ReplaceAll(s, "{$0}", "{L}")
 		// helper results: {driver.toInts(MIN,MAX)#0:%d} → {MIN:%d}
@@ -1047,19 +1122,21 @@ func (c *Ctx) checkRangeTable(r *Report, rule, role string, rt *rangeTable) {
 	}
 	bad := map[string]finding{}
 	for _, row := range rt.Rows {
-		for _, mo := range dims(row.MinOpen) {
-			for _, xo := range dims(row.MaxOpen) {
-				combos++
-				cls := rangeOracle(row.Skel, row.Excl == 1, mo, xo)
-				if cls == "" {
-					okCombos++
-					continue
+		for _, ex := range dims(row.Excl) {
+			for _, mo := range dims(row.MinOpen) {
+				for _, xo := range dims(row.MaxOpen) {
+					combos++
+					cls := rangeOracle(row.Skel, ex, mo, xo)
+					if cls == "" {
+						okCombos++
+						continue
+					}
+					key := fmt.Sprintf("%s|%s|%s", role, row.Stage, cls)
+					if cls == "wrong-comparison" {
+						key += fmt.Sprintf("|excl=%v,minOpen=%v,maxOpen=%v", ex, mo, xo)
+					}
+					bad[key] = finding{c.instrPos(row.P.Ret), fmt.Sprintf("range with exclusive=%v, lower bound open=%v, upper bound open=%v (%s stage) is rendered as `%s`", ex, mo, xo, row.Stage, row.Skel)}
 				}
-				key := fmt.Sprintf("%s|%s|%s", role, row.Stage, cls)
-				if cls == "wrong-comparison" {
-					key += fmt.Sprintf("|excl=%v,minOpen=%v,maxOpen=%v", row.Excl == 1, mo, xo)
-				}
-				bad[key] = finding{c.instrPos(row.P.Ret), fmt.Sprintf("range with exclusive=%v, lower bound open=%v, upper bound open=%v (%s stage) is rendered as `%s`", row.Excl == 1, mo, xo, row.Stage, row.Skel)}
 			}
 		}
 	}
@@ -1121,7 +1198,7 @@ func ruleSQLRANGE(c *Ctx, r *Report) {
 		for _, row := range rows {
 			isRB := false
 			incl := -1
-			for _, a := range row.P.Atoms {
+			for _, a := range row.Atoms {
 				if a.Kind == "type" && a.Pos && a.Subj == "$1" && a.Val == "*expr.RangeBoundary" {
 					isRB = true
 				}
@@ -1311,7 +1388,7 @@ func ruleSPLITSAFE(c *Ctx, r *Report) {
 			rows, _ := c.successSkeletons(ser)
 			for _, row := range rows {
 				isRB := false
-				for _, a := range row.P.Atoms {
+				for _, a := range row.Atoms {
 					if a.Kind == "type" && a.Pos && a.Subj == "$1" && a.Val == "*expr.RangeBoundary" {
 						isRB = true
 					}
